@@ -96,6 +96,14 @@ func (h *NFSProcedureHandler) handleReaddir(body io.Reader, reply *RPCReply, aut
 			break
 		}
 
+		// Once the reply holds an entry, never add one that would push the
+		// READDIR3resok (everything after the status word, plus the list
+		// terminator and eof flag) past the client's count.
+		if entryCount > 0 && buf.Len()-4+readdirEntrySize(path.Base(entry.path), false)+8 > int(count) {
+			reachedLimit = true
+			break
+		}
+
 		// Skip entries with nil attrs
 		entry.mu.RLock()
 		if entry.attrs == nil {
@@ -139,6 +147,17 @@ func (h *NFSProcedureHandler) handleReaddir(body io.Reader, reply *RPCReply, aut
 
 	reply.Data = buf.Bytes()
 	return reply, nil
+}
+
+// readdirEntrySize returns the encoded size of one directory entry:
+// value-follows flag, fileid, name (length word plus padded bytes) and cookie,
+// plus post_op_attr and post_op_fh3 (8-byte handle) for READDIRPLUS.
+func readdirEntrySize(name string, plus bool) int {
+	size := 4 + 8 + 4 + (len(name)+3)&^3 + 8
+	if plus {
+		size += 4 + 84 + 4 + 4 + 8
+	}
+	return size
 }
 
 // handleReaddirplus handles NFSPROC3_READDIRPLUS - read directory with attributes
@@ -222,6 +241,12 @@ func (h *NFSProcedureHandler) handleReaddirplus(body io.Reader, reply *RPCReply,
 		}
 
 		if buf.Len() >= maxReplySize && entryCount > 0 {
+			reachedLimit = true
+			break
+		}
+
+		// Same bound for READDIRPLUS3resok against maxcount.
+		if entryCount > 0 && buf.Len()-4+readdirEntrySize(path.Base(entry.path), true)+8 > int(maxCount) {
 			reachedLimit = true
 			break
 		}
